@@ -491,9 +491,9 @@ func TestC17Netns(t *testing.T) {
 	_ = net.IPv4len
 	_ = time.Second
 	kit.Run(t, kit.Spec[c17Case]{
-		Prop: "C17",
-		Rule: "the real sx binary inside a fresh network namespace built from a generated configuration: 1..3 veth pairs and optionally a tun device (no hardware address), each with 0..3 IPv4 networks (/8../30, overlapping across interfaces) and/or IPv6 only, 0..3 default routes (via a gateway or device routes) with metrics incl. ties, plus 0..2 more specific routes (0.0.0.0/1, 128.0.0.0/1, /8) that must not count as default routes; scan arp/icmp/tcp/udp (arp also in --live mode, interrupted after several passes) of a /30../32 target attached to some interface or to none, with any subset of --iface/--srcip/--srcmac (--srcmac never together with a tun device). Observed: frames on the far end of every veth (AF_PACKET) and on the tun file descriptor. Oracle (validity predicate computed from the configuration as the kernel reports it): all probes leave through one admissible interface (attached one among the allowed; else --iface; else a lowest-metric default-route device) with an admissible source (own address on the target's network; else first address; flags override), source MAC = interface's or --srcmac, raw-IP framing on a MAC-less device; if no admissible choice exists: an error (exit status or error record) and zero probe frames. non-trivial: >=2 configured interfaces; distinct by case",
-		Gen:  c17Gen,
+		Prop:  "C17",
+		Rule:  "the real sx binary inside a fresh network namespace built from a generated configuration: 1..3 veth pairs and optionally a tun device (no hardware address), each with 0..3 IPv4 networks (/8../30, overlapping across interfaces) and/or IPv6 only, 0..3 default routes (via a gateway or device routes) with metrics incl. ties, plus 0..2 more specific routes (0.0.0.0/1, 128.0.0.0/1, /8) that must not count as default routes; scan arp/icmp/tcp/udp (arp also in --live mode, interrupted after several passes) of a /30../32 target attached to some interface or to none, with any subset of --iface/--srcip/--srcmac (--srcmac never together with a tun device). Observed: frames on the far end of every veth (AF_PACKET) and on the tun file descriptor. Oracle (validity predicate computed from the configuration as the kernel reports it): all probes leave through one admissible interface (attached one among the allowed; else --iface; else a lowest-metric default-route device) with an admissible source (own address on the target's network; else first address; flags override), source MAC = interface's or --srcmac, raw-IP framing on a MAC-less device; if no admissible choice exists: an error (exit status or error record) and zero probe frames. non-trivial: >=2 configured interfaces; distinct by case",
+		Gen:   c17Gen,
 		Check: c17Check,
 	})
 }
